@@ -394,6 +394,44 @@ def run(ctx):
                 elif st == "ok" and out:
                     res.violation("value-without-encoding-reported-success", f"write({t.full_name!r}, {badv!r}) to a {t.dtype.name} reported success: {out!r:.160} ({sc.label})", {"tag": t.full_name})
                 dev.write_journal.clear()
+            # ---- BOOL-array ranges that do not fill whole 32-bit words ('flags[32]{8}', 'flags[0]{33}').  The documented forms are single
+            # elements and whole-word ranges; whatever the library makes of a ragged one, a reported success means that exactly the
+            # addressed BOOLs hold the values and no other bit of the controller has changed (a refusal is fine too)
+            barrs = [t for t in prj.user_tags() if t.dtype.name == "DWORD" and t.dims and t.kind == "user"]
+            for t in rng.sample(barrs, min(2, len(barrs))):
+                nb = 32 * t.dims[0]
+                w0 = rng.randrange(t.dims[0])
+                fits = [k for k in (2, 8, 31, 33, 40, 63) if 32 * w0 + k <= nb]
+                if not fits:
+                    continue
+                n = rng.choice(fits)
+                vals = [rng.random() < 0.5 for _ in range(n)]
+                txt = f"{t.full_name}[{32 * w0}]{{{n}}}"
+                before = prj.snapshot()
+                mem_before = bytes(t.data)
+                dev.write_journal.clear()
+                st, out = sc.b.call("write", sc.drv.write, txt, vals)
+                dev.finish_transfers()
+                res.ev()
+                res.seen("ragged-bool-range", n, w0 == 0, sc.label)
+                if st == "ok" and out:
+                    res.count("ragged-bool-range:accepted")
+                    want = bytearray(mem_before)
+                    for k, v in enumerate(vals):
+                        b_ = 32 * w0 + k
+                        want[b_ // 8] = (want[b_ // 8] | (1 << (b_ % 8))) if v else (want[b_ // 8] & ~(1 << (b_ % 8)) & 0xFF)
+                    others = {k_: v_ for k_, v_ in prj.snapshot().items() if k_ != t.full_name and v_ != before[k_] and prj.find(k_) is not None and prj.find(k_).data is not t.data}
+                    if bytes(t.data) != bytes(want) or others:
+                        res.violation("ragged-bool-range:collateral-change", f"write({txt!r}, <{n} BOOLs>) reported success; the array holds {bytes(t.data).hex()[:80]}, it was {mem_before.hex()[:80]} and "
+                                                                             f"only BOOLs {32 * w0}..{32 * w0 + n - 1} were addressed (expected {bytes(want).hex()[:80]}); other tags changed: {sorted(others)[:3]} ({sc.label})",
+                                      {"request": txt, "config": sc.label})
+                        t.data[:] = mem_before
+                else:
+                    res.count("ragged-bool-range:refused")
+                    if bytes(t.data) != mem_before:
+                        res.dont_care("ragged-bool-range:refused-but-memory-changed")
+                        t.data[:] = mem_before
+                dev.write_journal.clear()
             # ---- two controllers in one process (see C01): a write through one driver changes that driver's controller, at the
             # addressed location, and nothing in the other controller - also for tags both controllers call by the same name
             if pi % 5 == 2 and not sc.micro:
